@@ -497,6 +497,11 @@ func (e *Engine) staticModifies(st *State, f *ssa.Function, c *ssa.CallCommon, m
 // call-site semantics (targets are evaluated with the callee's parameter
 // bindings).
 func (e *Engine) havocTarget(st *State, env *Env, m *cexpr.Node, atCall bool) {
+	e.havocTargetIn(st, env, m)
+}
+
+// havocTargetIn resolves the target in env (whose state may be a snapshot) and forgets it in st.
+func (e *Engine) havocTargetIn(st *State, env *Env, m *cexpr.Node) {
 	isHeap := false
 	if m.Kind == "call" && m.Args[0].Kind == "ident" && m.Args[0].Name == "heap" {
 		isHeap = true
